@@ -38,7 +38,10 @@ PInit(root, pc, file, kvroot, cn, vn, fn) ==
   [stack |-> <<Frame(root, [oi |-> 0, ii |-> 0], kvroot)>>,
    status |-> "more", pc |-> pc, file |-> file, line |-> 1,
    diags |-> <<>>, depr |-> FALSE, cblog |-> <<>>, freed |-> <<>>,
-   cn |-> cn, vn |-> vn, fn |-> fn, inc |-> <<>>]
+   cn |-> cn, vn |-> vn, fn |-> fn,
+   (* include files: fs maps a name to [kind |-> "file" | "dir", toks |-> tokens of the file]; *)
+   (* inc is the stack of saved (file, line) of the including sources; incq a pending request  *)
+   fs |-> <<>>, inc |-> <<>>, incq |-> [on |-> FALSE, name |-> ""]]
 
 Top(ps)        == ps.stack[Len(ps.stack)]
 SetTop(ps, f)  == [ps EXCEPT !.stack[Len(ps.stack)] = f]
@@ -158,7 +161,13 @@ StartItem(ps, f, name) ==
 (* comment is no longer "immediately before" whatever comes next           *)
 ItemDone(f) == [f EXCEPT !.st = 0, !.stale = (f.cmt # Null)]
 
+(* the built-in include function: exactly one argument; the scanner switches to the file *)
+CallInclude(ps, f) ==
+  IF Len(f.fargs) # 1 THEN FailD(ps)
+  ELSE [SetTop(ps, ItemDone([f EXCEPT !.fargs = <<>>])) EXCEPT !.incq = [on |-> TRUE, name |-> f.fargs[1]]]
+
 CallFunction(ps, f) ==
+  IF CurOpt(f).fn = "include" THEN CallInclude(ps, f) ELSE
   LET o   == CurOpt(f)
       fn1 == ps.fn + 1
       ps1 == [ps EXCEPT !.fn = fn1,
@@ -314,7 +323,33 @@ PStep(ps, t) ==
   IF ps.status # "more" THEN ps
   ELSE PStepCore([ps EXCEPT !.line = @ + t.nl + t.nlin], t)
 
-RECURSIVE PRun(_, _)
-PRun(ps, toks) == IF toks = <<>> THEN ps ELSE PRun(PStep(ps, Head(toks)), Tail(toks))
+(* ------------------------------------------------------------------ *)
+(* include files (lexer.l: cfg_lexer_include, the <<EOF>> rule):       *)
+(* the included tokens are read in place, with the file name and line   *)
+(* of the including source saved and restored; at most MaxIncludeDepth  *)
+(* files are open at a time; a failure anywhere aborts the whole parse  *)
+(* ------------------------------------------------------------------ *)
+MaxIncludeDepth == 10
+
+RECURSIVE PRun(_, _), PStepI(_, _)
+EnterInclude(p, name) ==
+  IF Len(p.inc) >= MaxIncludeDepth THEN FailD(p)                       \* includes nested too deeply
+  ELSE IF name \notin DOMAIN p.fs THEN FailD(p)                        \* missing / not found in the search path
+  ELSE IF p.fs[name].kind # "file" THEN FailD(p)                       \* a directory
+  ELSE LET saved == [file |-> p.file, line |-> p.line]
+           p2 == [p EXCEPT !.inc = Append(@, saved), !.file = name, !.line = 1]
+           p3 == PRun(p2, p.fs[name].toks)
+       IN IF p3.status # "more" THEN p3                                \* rejected inside the file
+          ELSE [p3 EXCEPT !.file = saved.file, !.line = saved.line, !.inc = SubSeq(@, 1, Len(@) - 1)]
+
+PStepI(ps, t) ==
+  LET p1 == PStep(ps, t)
+  IN IF p1.status = "more" /\ p1.incq.on
+       THEN EnterInclude([p1 EXCEPT !.incq = [on |-> FALSE, name |-> ""]], p1.incq.name)
+       ELSE p1
+
+PRun(ps, toks) == IF toks = <<>> THEN ps ELSE PRun(PStepI(ps, Head(toks)), Tail(toks))
+
+WithFs(ps, fs) == [ps EXCEPT !.fs = fs]
 
 =============================================================================
